@@ -678,6 +678,12 @@ func (e *Env) call(x *ast.CallExpr, hint types.Type) Term {
 			panic(unsupported("dynType of non-interface"))
 		}
 		return Term{"(i-tag " + v.S + ")", "Int", mathIntType}
+	case "ptrKind": // ptrKind(i): the dynamic type of the interface value i is a pointer type (uninterpreted for types this run does not know)
+		v := e.tr(arg(0), nil)
+		if v.Sort != "Iface" {
+			panic(unsupported("ptrKind of non-interface"))
+		}
+		return Term{"(tag-is-ptr (i-tag " + v.S + "))", "Bool", boolT}
 	case "typeTag": // tag of a concrete type
 		return Term{fmt.Sprint(w.reg.tagOf(e.evalType(arg(0)))), "Int", mathIntType}
 	case "zeroExcept": // zeroExcept(structValue, "F1", ...): every other field holds its zero value
